@@ -438,6 +438,60 @@ M("c20-equal-first-only", "C20", "histogram.go",
 	}
 
 	return true""", expect="O4 buckets-equal")
+M("c20-linear-off-by-one", "C20", "histogram.go",
+  "		buckets[i] = start + (float64(i) * width)", "		buckets[i] = start + (float64(i+1) * width)", expect="O5 recurrence")
+M("c20-linear-duration-no-start", "C20", "histogram.go",
+  "		buckets[i] = start + (time.Duration(i) * width)", "		buckets[i] = time.Duration(i) * width", expect="O5 recurrence")
+M("c20-exp-update-before-store", "C20", "histogram.go",
+  """		buckets[i] = curr
+		curr *= factor
+""", """		curr *= factor
+		buckets[i] = curr
+""", expect="O5 recurrence")
+M("c20-exp-additive", "C20", "histogram.go",
+  """		buckets[i] = curr
+		curr *= factor
+""", """		buckets[i] = curr
+		curr += factor
+""", expect="O5 recurrence")
+M("c20-exp-duration-square", "C20", "histogram.go",
+  "		curr = time.Duration(float64(curr) * factor)", "		curr = time.Duration(float64(curr) * factor * factor)", expect="O5 recurrence")
+M("c20-linear-skips-last", "C20", "histogram.go",
+  """	for i := range buckets {
+		buckets[i] = start + (float64(i) * width)
+	}""", """	for i := range buckets[:n-1] {
+		buckets[i] = start + (float64(i) * width)
+	}""", expect="O5 recurrence")
+M("c20-exp-conditional-store", "C20", "histogram.go",
+  """		buckets[i] = curr
+		curr *= factor
+""", """		if curr < math.MaxFloat64/factor {
+			buckets[i] = curr
+		}
+		curr *= factor
+""", expect="O5 recurrence")
+B("c20-benign-linear-accumulate", "C20", "histogram.go",
+  """	for i := range buckets {
+		buckets[i] = start + (float64(i) * width)
+	}""", """	curr := start
+	for i := range buckets {
+		buckets[i] = curr
+		curr += width
+	}""")
+B("c20-benign-classic-loop", "C20", "histogram.go",
+  """	for i := range buckets {
+		buckets[i] = start + (time.Duration(i) * width)
+	}""", """	for i := 0; i < n; i++ {
+		buckets[i] = width*time.Duration(i) + start
+	}""")
+B("c20-benign-exp-pow", "C20", "histogram.go",
+  """	curr := start
+	for i := range buckets {
+		buckets[i] = curr
+		curr *= factor
+	}""", """	for i := 0; i < len(buckets); i++ {
+		buckets[i] = start * math.Pow(factor, float64(i))
+	}""")
 B("c20-benign-guard-lt-1", "C20", "histogram.go",
   """func LinearValueBuckets(start, width float64, n int) (ValueBuckets, error) {
 	if n <= 0 {""", """func LinearValueBuckets(start, width float64, n int) (ValueBuckets, error) {
